@@ -2,6 +2,7 @@ import PyrexVerif.Proofs.AskaryanZHSMove
 import PyrexVerif.Proofs.AskaryanAVZ2
 import PyrexVerif.Proofs.AskaryanARZMove3
 import PyrexVerif.Proofs.AskaryanRound4
+import PyrexVerif.Proofs.AskaryanRound5
 import PyrexVerif.Proofs.AskaryanFinite
 /-!
 # C07 — Askaryan pulses obey their scaling laws and fail gracefully
@@ -135,17 +136,17 @@ theorem C07_avz_odd_last_sample_extrapolated (times : List ℝ) (E em had psi di
   simp only [avzCentred_length]
   rw [if_pos hodd]
   set L := 2 * (times.length / 2) with hL
-  set placed := (if (Rfloor ((t0 - times.getD 0 0) / gridDt times) - ((L / 2 : ℕ) : ℤ)).natAbs > L then zerosL L
+  set placed := (if (Rfloor (askRound6 ((t0 - times.getD 0 0) / gridDt times)) - ((L / 2 : ℕ) : ℤ)).natAbs > L then zerosL L
       else List.take L (askRoll (avzCentred times.length (gridDt times)
         (avzSpectrum (times.length / 2 + 1) (askRfftfreq times.length (gridDt times)) E em had dist (Rabs psi) (thetaC n))
-          ++ zerosL L) (Rfloor ((t0 - times.getD 0 0) / gridDt times) - ((L / 2 : ℕ) : ℤ)))) with hp
+          ++ zerosL L) (Rfloor (askRound6 ((t0 - times.getD 0 0) / gridDt times)) - ((L / 2 : ℕ) : ℤ)))) with hp
   have hpl : placed.length = L := by
     rw [hp]
     split_ifs
     · exact zerosL_length _
     · have := take_askRoll_length (avzCentred times.length (gridDt times)
         (avzSpectrum (times.length / 2 + 1) (askRfftfreq times.length (gridDt times)) E em had dist (Rabs psi) (thetaC n)))
-        (Rfloor ((t0 - times.getD 0 0) / gridDt times) - ((L / 2 : ℕ) : ℤ))
+        (Rfloor (askRound6 ((t0 - times.getD 0 0) / gridDt times)) - ((L / 2 : ℕ) : ℤ))
       rw [avzCentred_length] at this
       exact this
   have hN : times.length = L + 1 := by omega
@@ -462,6 +463,54 @@ theorem C07_any_ice_model (I : Ice) (times : List ℝ) (lam E em psi dist z t0 :
    avz_oncone_linear times lam E em psi dist (I.index z) t0 hpsi,
    fun energy f t1 t2 hE hR hf h => C07_zhs_amplitude_max_on_cone energy dist (thetaC (I.index z)) f t1 t2 hE hR hf h⟩
 
+/-! ## the excluded points (hypothesis audit): what the model does where the theorems above do not apply -/
+
+/-- repair F21: the AVZ placement floors the sample quotient *rounded to 1e-6*; within half a micro-sample of a
+whole sample `k` the pulse is placed at `k` … -/
+theorem C07_avz_round_fixes_grid_samples (k : ℤ) (e : ℝ) (h1 : -(5e-7 : ℝ) ≤ e) (h2 : e < 5e-7) :
+    Rfloor (askRound6 ((k : ℝ) + e)) = k :=
+  floor_askRound6_near_int k e h1 h2
+
+/-- … whereas the floor alone (the code before F21) drops to `k - 1` for an arbitrarily small negative error,
+which is what a float quotient `(times[k]-times[0])/dt = k - 1e-16` produces -/
+theorem C07_avz_floor_alone_is_fragile (k : ℤ) (e : ℝ) (h1 : 0 < e) (h2 : e ≤ 1) : Rfloor ((k : ℝ) - e) = k - 1 :=
+  floor_sub_small k e h1 h2
+
+/-- the rounding commutes with whole-sample moves (used by `C07_whole_sample_move_avz`) -/
+theorem C07_avz_round_shift_equivariant (q : ℝ) (m : ℕ) : askRound6 (q + m) = askRound6 q + m :=
+  askRound6_add_nat q m
+
+/-- K24 carried by the model: on the two-sample grid `[0, 1]` the shower time 3 is the last inside the ZHS placement
+range and `4 = 3 + 1·dt` the first outside; the moved trace is `0` at sample 1 while the original sample 0 is
+strictly negative — the whole-sample move FAILS across the cut, for every shower of positive energy -/
+theorem C07_zhs_move_fails_across_cut (E em had psi dist n : ℝ) (hE : 0 < E * (em + had)) (hR : 0 < dist) :
+    zhsInRange [0, 1] 3 ∧ ¬ zhsInRange [0, 1] 4 ∧
+    (zhsValues [0, 1] E em had psi dist n 4).getD 1 0 = 0 ∧
+    (zhsValues [0, 1] E em had psi dist n 3).getD (1 - 1) 0 < 0 :=
+  zhs_cut_breaks_move E em had psi dist n hE hR
+
+/-- K25 carried by the model: `dt_divider > |100·dt/(max_length·z_to_t)|`, unbounded as `max_length → 0` (shower
+energy → 0.0786 GeV) and as `z_to_t → 0` (viewing angle → edge of the on-cone window) … -/
+theorem C07_arz_subsample_count_unbounded (N : ℕ) (dt tStart maxLen z : ℝ) :
+    Rabs (100 * dt / maxLen / z) < (((arzIdx N dt tStart maxLen z).dtDiv : ℤ) : ℝ) :=
+  arzIdx_dtDiv_lower N dt tStart maxLen z
+
+/-- … and exactly at the critical energy `max_length = 0`: the code divides by zero there (OverflowError), the
+ℝ-model's totalised `x/0 = 0` says nothing about it; every ARZ theorem about energies is meant above it
+(`C07_finite_arz` has the guard `crit < energy`) -/
+theorem C07_arz_max_length_zero_at_critical_energy : maxLength (Askc.maxlen_crit : ℝ) = 0 := maxLength_crit
+
+/-- the hypothesis `n_RAC ≥ 1` of `ArzMoveHyp` always holds for `dt > 0` -/
+theorem C07_arz_nRAC_ge_two (N : ℕ) (dt tStart maxLen z : ℝ) (hdt : 0 < dt) (hz : z ≠ 0) :
+    2 ≤ (arzIdx N dt tStart maxLen z).nRAC :=
+  arzIdx_nRAC_ge_two N dt tStart maxLen z hdt hz
+
+/-- index of refraction 1 (vertex above the surface): no Cherenkov cone; `sin θ_c = 0` and `√(1-1/n²) = 0`, the
+AVZ/ARZ prefactors are undefined (the code returns NaN without raising) — all theorems assume `n > 1` -/
+theorem C07_cone_undefined_at_index_one :
+    thetaC 1 = 0 ∧ Rsin (thetaC 1) = 0 ∧ Rsqrt (1 - 1 / ((1 : ℝ) * 1)) = 0 :=
+  cone_undefined_at_index_one
+
 /-! ## non-vacuity: concrete instances of the hypotheses -/
 
 /-- a four-sample grid with `dt = 1`, shower time `t0 = 1.5`, moved by one sample: both in range -/
@@ -482,8 +531,13 @@ example : gridDt [0, 1, 2, (3 : ℝ)] ≠ 0 ∧ zhsInRange [0, 1, 2, (3 : ℝ)] 
 
 example : avzInRange [0, 1, 2, (3 : ℝ)] 1.5 := by
   have hd : gridDt [0, 1, 2, (3 : ℝ)] = 1 := by simp [gridDt]
-  have t1 : Rfloor (1.5 : ℝ) = 1 := by
-    simp only [Rfloor]; rw [Int.floor_eq_iff]; norm_num
+  have t1 : Rfloor (askRound6 (1.5 : ℝ)) = 1 := by
+    have r : askRound6 (1.5 : ℝ) = 1.5 := by
+      unfold askRound6
+      simp only [Rfloor, RofInt]
+      have : ⌊(1.5 : ℝ) * 1000000 + 0.5⌋ = 1500000 := by rw [Int.floor_eq_iff]; norm_num
+      rw [this]; norm_num
+    rw [r]; simp only [Rfloor]; rw [Int.floor_eq_iff]; norm_num
   unfold avzInRange; rw [hd]
   have : ((1.5 : ℝ) - [0, 1, 2, (3 : ℝ)].getD 0 0) / 1 = 1.5 := by simp
   rw [this, t1]; decide
@@ -540,8 +594,13 @@ example : ¬ zhsInRange [0, 1, 2, (3 : ℝ)] 100 ∧ ¬ avzInRange [0, 1, 2, (3 
   have hd : gridDt [0, 1, 2, (3 : ℝ)] = 1 := by simp [gridDt]
   have t1 : Rtrunc (100 : ℝ) = 100 := by
     simp only [Rtrunc]; rw [if_pos (by norm_num), Int.floor_eq_iff]; norm_num
-  have t2 : Rfloor (100 : ℝ) = 100 := by
-    simp only [Rfloor]; rw [Int.floor_eq_iff]; norm_num
+  have t2 : Rfloor (askRound6 (100 : ℝ)) = 100 := by
+    have r : askRound6 (100 : ℝ) = 100 := by
+      unfold askRound6
+      simp only [Rfloor, RofInt]
+      have : ⌊(100 : ℝ) * 1000000 + 0.5⌋ = 100000000 := by rw [Int.floor_eq_iff]; norm_num
+      rw [this]; norm_num
+    rw [r]; simp only [Rfloor]; rw [Int.floor_eq_iff]; norm_num
   have e : ((100 : ℝ) - [0, 1, 2, (3 : ℝ)].getD 0 0) / 1 = 100 := by simp
   constructor
   · unfold zhsInRange; rw [hd, e, t1, not_not]; decide
@@ -576,4 +635,10 @@ example : let I : Ice := ⟨1.78, 0.43, 0.0132, -2850, 0, some 1, none⟩
     norm_num at this
   · simp [Ice.index, Ice.profile]
     norm_num
+
+/-- `C07_avz_round_fixes_grid_samples` / `C07_avz_floor_alone_is_fragile`: the float error of an on-grid quotient -/
+example : -(5e-7 : ℝ) ≤ -1e-16 ∧ (-1e-16 : ℝ) < 5e-7 ∧ (0 : ℝ) < 1e-16 ∧ (1e-16 : ℝ) ≤ 1 := by norm_num
+
+/-- `C07_zhs_move_fails_across_cut`, `C07_arz_nRAC_ge_two`: a 1 EeV shower at 100 m; a 0.5 ns step -/
+example : (0 : ℝ) < 1e9 * (0.6 + 0.4) ∧ (0 : ℝ) < 100 ∧ (0 : ℝ) < 5e-10 ∧ (1.7e-10 : ℝ) ≠ 0 := by norm_num
 
